@@ -26,7 +26,7 @@ PROFILE = S.profile(renames=0.05, dups=0.0, attrs=0.1, orders=["identity", "reve
 @st.composite
 def cases(draw, tier="quick"):
     spec = draw(S.enum_specs(PROFILE))
-    cfg = draw(S.configs(spec, force=("MIN", "MAX", "next", "next_back"), p_on=0.25))
+    cfg = draw(S.configs(spec, force=("MIN", "MAX", "next", "next_back"), p_on=0.25, p_sorted=0.2))
     return {"spec": spec, "cfg": cfg, "seed": draw(st.integers(0, 2 ** 31))}
 
 
